@@ -1,10 +1,13 @@
-#!/bin/sh
-# Run every claimed check once (quick tier) and print one line per property.
+#!/bin/bash
+# Run claimed checks once and print one line per property:  tools/run_all.sh [tier] [ids...]
 cd "$(dirname "$0")/.."
-TIER=${1:-quick}
-for f in props/C*.json; do
-  id=$(basename "$f" .json)
+TIER=${1:-quick}; shift
+IDS="$@"
+[ -z "$IDS" ] && IDS=$(ls props/C*.json | xargs -n1 basename | sed 's/.json//')
+for id in $IDS; do
+  f=props/$id.json
+  [ -f "$f" ] || continue
   if python3 -c "import json,sys; sys.exit(0 if json.load(open('$f')).get('disabled') else 1)"; then continue; fi
-  out=$(./check "$id" --tier "$TIER" 2>&1 | tail -2 | tr '\n' ' ')
-  echo "$id rc=$? $out"
+  out=$(./check "$id" --tier "$TIER" 2>&1); rc=$?
+  echo "$id rc=$rc $(echo "$out" | grep -E '^(PASS|VIOLATION|KNOWN-FINDING)' | tr '\n' ' ' | cut -c1-300)"
 done
